@@ -262,6 +262,7 @@ func stepCaseV(p *prog, in Instr) Case {
 	in.ParJ = JF(in.Par)
 	ids := in.regsUsed()
 	sortInts(ids[1:])
+	mat := prepRed(p.regs, &in) // Mtrace / Mnorm: the element registers become the matrix's own elements
 	pre := make([]RegSnap, len(ids))
 	prem := map[int]RegSnap{}
 	for i, id := range ids {
@@ -273,7 +274,7 @@ func stepCaseV(p *prog, in Instr) Case {
 		defer func() { recover() }()
 		vshadow(o, &in, prem)
 	}()
-	kind := execGo(p.regs, &in)
+	kind := execRed(p.regs, &in, mat)
 	post := make([]RegSnap, len(ids))
 	for i, id := range ids {
 		post[i] = snap(p.regs[id])
@@ -389,14 +390,8 @@ func vshadow(o *Orc, in *Instr, pre map[int]RegSnap) {
 		} else {
 			f.set(c, b)
 		}
-	case "Abs":
-		if in.Conc {
-			if f.val[c] < 0 {
-				f.mon("Neg", c, a)
-			} else {
-				f.set(c, a)
-			}
-		} else if f.get(a) < 0 {
+	case "Abs": // the concrete twin ABS has the same body (HEAD 2fc8894)
+		if f.get(a) < 0 {
 			f.mon("Neg", c, a)
 		} else if f.get(a) > 0 {
 			f.set(c, a)
@@ -433,10 +428,12 @@ func vshadow(o *Orc, in *Instr, pre map[int]RegSnap) {
 		} else if v <= 18.0 {
 			f.mon("Exp", c, a)
 			f.mon("Log1p", c, vr(c))
-		} else if v <= 33.3 {
-			f.mon("Neg", c, a)
-			f.mon("Exp", c, vr(c))
-			f.dy("Add", c, vr(c), a)
+		} else if v <= 33.3 { // HEAD 7035970: t := NewScalar(c.Type(), 0.0); t.Neg(a); t.Exp(t); c.Add(a, t)
+			const tmp = 1 << 20
+			f.kind[tmp] = f.kind[c]
+			f.mon("Neg", tmp, a)
+			f.mon("Exp", tmp, vr(tmp))
+			f.dy("Add", c, a, vr(tmp))
 		} else {
 			f.set(c, a)
 		}
@@ -463,7 +460,11 @@ func vshadow(o *Orc, in *Instr, pre map[int]RegSnap) {
 			f.mon(in.Op, c, a)
 			return
 		}
-		shadow(o, in, pre) // reductions: not alias patterns of this harness
+		if isRed(in.Op) {
+			f.reduction(in) // the element list may name the receiver or a scratch argument
+			return
+		}
+		shadow(o, in, pre)
 	}
 }
 
@@ -527,21 +528,11 @@ func (s *Scen) site() string {
 	if usesTmpAlias {
 		return "tmp-alias:" + s.Op + ":" + s.Pat
 	}
-	if s.Op == "Abs" && s.Ins.Conc {
-		return "ABS(concrete)" // tests the receiver's sign: known finding F-ABSC of C01
-	}
 	if s.Op == "Abs" && x.Val == 0 {
 		return "Abs:v=0" // c.Reset() keeps the receiver's Order and N, with or without aliasing
 	}
 	if !isOpd {
 		return "no-alias:" + s.Op
-	}
-	v := x.Val
-	switch s.Op {
-	case "Log1pExp":
-		if v > 18.0 && v <= 33.3 {
-			return "Log1pExp:c=a:18<v<=33.3"
-		}
 	}
 	if arity(s.Op) == 2 && s.Op != "Min" && s.Op != "Max" {
 		opA, opB := s.Regs[s.Ins.A], s.Regs[s.Ins.B]
@@ -559,17 +550,53 @@ func (s *Scen) site() string {
 			return "alloc-mixed-order"
 		}
 	}
-	if s.Op == "Min" || s.Op == "Max" {
-		// c.Set(other) with equal N and different Order
-		other := s.Regs[s.Ins.A]
-		if s.Ins.C == s.Ins.A {
-			other = s.Regs[s.Ins.B]
-		}
-		if other.N == c.N && other.Order != c.Order && other.N != 0 {
-			return "set-order-before-alloc"
-		}
-	}
 	return "alias:" + s.Op
+}
+
+// tmpExpect: the exact characterisation of "a scratch argument that is also an operand" (receiver result
+// equal to the call with a separate scratch scalar?):
+//   Sigmoid(a, t), t = a         safe (t.Exp(a) is the last read of a); the ARGUMENT is destroyed
+//   LogAdd(a, b, t)              after the swap lo <= hi: t.Sub(lo, hi); ...; c.Add(t, hi):
+//                                t = lo safe, t = hi unsafe (hi is read after t was written); lo infinite: t unused
+//   LogSub(a, b, t)              t.Sub(b, a); ...; c.Add(t, a): t = b safe, t = a unsafe; b = -Inf: t unused
+//   and the first step t.Sub(.,.) has t as an operand: safe only under the side condition [keeps] of
+//   AllocForTwo (coq/C08/Spec.v) — otherwise F-ALLOC strikes inside the body.
+func (s *Scen) tmpExpect() bool {
+	in := s.Ins
+	if len(in.T) == 0 {
+		return true
+	}
+	t := in.T[0]
+	keeps := func(c, o RegSnap) bool {
+		n, ord := imax(c.N, o.N), imax(c.Order, o.Order)
+		return (c.N == n && c.Order == ord) || (c.Order == 0 && c.N <= o.N)
+	}
+	switch s.Op {
+	case "Sigmoid":
+		return true
+	case "LogAdd":
+		a, b := in.A, in.B
+		ka := s.Regs[a].Kind
+		if r32(ka, s.Regs[b].Val) < r32(ka, s.Regs[a].Val) {
+			a, b = b, a
+		}
+		if math.IsInf(s.Regs[a].Val, 0) {
+			return true
+		}
+		if t == b {
+			return false
+		}
+		return keeps(s.Regs[a], s.Regs[b])
+	case "LogSub":
+		if math.IsInf(s.Regs[in.B].Val, -1) {
+			return true
+		}
+		if t == in.A {
+			return false
+		}
+		return keeps(s.Regs[in.B], s.Regs[in.A])
+	}
+	return false // reductions: a scratch argument among the elements is overwritten while the loop still reads it
 }
 
 func arity(op string) int {
